@@ -301,6 +301,20 @@ fn logical_cases(seed: u64, tier: Tier) -> Vec<Logical> {
     // a message bob encrypted to himself: the sender named is bob
     let fself = r::write_key_file(&bob.sk, &bob.pk, &e, &pay, &p1, &[500]).unwrap();
     v.push(dec("decrypt/valid-self-encrypted", fself, &kr_first, "bob", Some("bobpw"), true, &p1, Some("from:bob".to_string())));
+    // a keyring entry whose encoded key equals the sender's up to letter case (a different key with a valid checksum, found
+    // by search once: CASE_TWIN) -- listed before the sender, and with the sender absent
+    {
+        let casepk = r::x25519_base(&CASE_SK);
+        let caseenc = r::encode_pk(&casepk);
+        if r::decode_pk(CASE_TWIN).is_none() || CASE_TWIN == caseenc || !CASE_TWIN.eq_ignore_ascii_case(&caseenc) {
+            crate::report::machinery("CASE_TWIN is not a case twin of the fixed sender key");
+        }
+        let fcase = r::write_key_file(&CASE_SK, &bob.pk, &e, &pay, &p1, &[500]).unwrap();
+        let kr_twin_first = format!("{}\n{}\n{}", proc::keyring_entry("caroltwin", CASE_TWIN, None), proc::keyring_entry("alicecase", &caseenc, None), bob.entry(true));
+        let kr_twin_only = format!("{}\n{}", proc::keyring_entry("caroltwin", CASE_TWIN, None), bob.entry(true));
+        v.push(dec("decrypt/valid-sender-has-a-case-twin-listed-first", fcase.clone(), &kr_twin_first, "bob", Some("bobpw"), true, &p1, Some("from:alicecase".to_string())));
+        v.push(dec("decrypt/valid-sender-absent-but-a-case-twin-is-listed", fcase, &kr_twin_only, "bob", Some("bobpw"), true, &p1, Some(format!("unknown:{}", caseenc))));
+    }
     // a forged, keyless ending: after an authentic non-final chunk (or right after the header) comes a record that
     // claims {last = 1, length 0} with 16 arbitrary bytes where the tag should be
     {
@@ -482,7 +496,7 @@ pub fn run(rep: &'static Report) {
     rep.set_rule("E-PROC product: every logical case (valid and invalid inputs, keyrings with the sender first/last/absent and decoy entries sharing 24-character prefixes/suffixes of the sender's key and prefix/extension/case variants of the names) x the full product of wirings {file argument | stdin} x {-o | stdout} x {-k | KESTREL_KEYRING} x {long | short options} x {command | alias} x {options before | after the positional}: 64 per keyring command, 32 per password command. Each run is checked against the CLI reference model (exit status, plaintext bytes, REF-validity of produced files, sender line) and all wirings of one logical case must yield the same outcome. distinct non-trivial = distinct (logical case, wiring) runs");
     rep.rule_add("Library level: decryption/encryption into sinks of bounded capacity succeed exactly when everything fitted.");
     rep.rule_add("per logical case the extra wirings size-limited output, pre-existing output, FIFO input, alias-named FILE, 5 pseudo-terminal wirings, decoy environment, stdout=/dev/full, stdout=closed pipe, stdin in pieces, names that are not UTF-8 (output, input, keyring; a U+FFFD-named neighbour holds other data).");
-    rep.rule_add("Logical cases include whole records swapped, repeated and dropped in both modes.");
+    rep.rule_add("Logical cases include whole records swapped, repeated and dropped in both modes, and a keyring entry whose encoded key equals the sender's up to letter case.");
     rep.assume("terminal-attached branches are exercised through a pseudo-terminal (password typed at a controlling terminal or at a terminal stdin); a real terminal emulator is not involved");
     let cases = logical_cases(rep.seed, rep.tier);
     let mut jobs = vec![];
@@ -862,5 +876,60 @@ pub fn replay(rep: &'static Report, case: &Value) {
             }
         }
         (Ok(o), Err(e)) => println!("  observed {:?}; baseline wiring fails the model: {}", o, e),
+    }
+}
+
+/// The fixed private key whose public key has a "case twin" (see CASE_TWIN): chosen once, independent of the seed.
+pub const CASE_SK: [u8; 32] = [0x43, 0x31, 0x32, 0x2d, 0x63, 0x61, 0x73, 0x65, 0x2d, 0x74, 0x77, 0x69, 0x6e, 0x2d, 0x73, 0x65, 0x6e, 0x64, 0x65, 0x72, 0x2d, 0x6b, 0x65, 0x79, 0x2d, 0x76, 0x31, 0x00, 0x00, 0x00, 0x00, 0x01];
+
+/// Encoding of another key that equals the encoding of CASE_SK's public key up to the case of ASCII letters (valid checksum).
+pub const CASE_TWIN: &str = "A4LqLp8+MNCm0sj7gzKgiRayuXeNxkdke2pNT/UZ0B3ofbyr";
+
+/// `kv find-case-twin`: search for a 32-byte key different from the public key of CASE_SK whose keyring encoding (base64
+/// of key || 4-byte SHA-256 checksum) equals that key's encoding up to the case of ASCII letters. One-off tool; its
+/// result is the constant CASE_TWIN.
+pub fn find_case_twin() {
+    let pk = r::x25519_base(&CASE_SK);
+    let enc = r::encode_pk(&pk);
+    println!("public key encoding: {}", enc);
+    let chars: Vec<char> = enc.chars().collect();
+    // letters among the first 42 characters (they decode to key bytes only)
+    let letter_pos: Vec<usize> = (0..42).filter(|&i| chars[i].is_ascii_alphabetic()).collect();
+    println!("{} letters in the key part", letter_pos.len());
+    let nbits = letter_pos.len().min(34);
+    let found = (1u64..(1u64 << nbits)).into_par_iter().find_any(|mask| {
+        let mut c = chars.clone();
+        for (b, &p) in letter_pos.iter().enumerate().take(nbits) {
+            if mask >> b & 1 == 1 {
+                c[p] = if c[p].is_ascii_lowercase() { c[p].to_ascii_uppercase() } else { c[p].to_ascii_lowercase() };
+            }
+        }
+        // decode the first 43 characters' worth of key bytes: take the 44-char prefix (33 bytes), keep 32
+        let s: String = c.iter().collect();
+        let head = match r::b64_decode(&format!("{}AAAA", &s[..44])) {
+            Some(v) => v,
+            None => return false,
+        };
+        let mut k = [0u8; 32];
+        k.copy_from_slice(&head[..32]);
+        // characters 42..44 straddle key byte 31 and the checksum: only accept if re-encoding agrees up to case
+        let e2 = r::encode_pk(&k);
+        e2 != enc && e2.eq_ignore_ascii_case(&enc)
+    });
+    match found {
+        Some(mask) => {
+            let mut c = chars.clone();
+            for (b, &p) in letter_pos.iter().enumerate().take(nbits) {
+                if mask >> b & 1 == 1 {
+                    c[p] = if c[p].is_ascii_lowercase() { c[p].to_ascii_uppercase() } else { c[p].to_ascii_lowercase() };
+                }
+            }
+            let s: String = c.iter().collect();
+            let head = r::b64_decode(&format!("{}AAAA", &s[..44])).unwrap();
+            let mut k = [0u8; 32];
+            k.copy_from_slice(&head[..32]);
+            println!("twin: {}", r::encode_pk(&k));
+        }
+        None => println!("no twin found in 2^{} masks", nbits),
     }
 }
